@@ -5,7 +5,7 @@
    objects: a lookup miss is `None` (the model asked for something the implementation never did),
    which shows up as a difference. *)
 From Coq Require Import List Bool Arith String Ascii ZArith NArith.
-From V.Model Require Import Router Play Dispatch.
+From V.Model Require Import Router Play Dispatch DispatchViews.
 Import ListNotations.
 Local Open Scope string_scope.
 
@@ -94,6 +94,24 @@ Definition timer_case (c : string * string * bool * bool) : bool :=
 Definition maps_case (c : string * list string * list (string * string) * list (string * string)) : bool :=
   let '(name, methods, listening, expected) := c in
   leqb (fun a b => String.eqb (fst a) (fst b) && String.eqb (snd a) (snd b)) (mappings_of name methods listening) expected.
+
+(* ---- C10: children of an aggregation view (registered names in order, kind, expected children);
+        addresses of the initial store in dict order: (components as (name, default-state names), expected) *)
+Definition children_case (c : list string * string * list string) : bool :=
+  let '(names, kind, expected) := c in leqb String.eqb (agg_children names kind) expected.
+Definition init_case (c : list (string * list string) * list string) : bool :=
+  let '(comps, expected) := c in
+  leqb String.eqb
+       (map fst (initial_store XEnt XPay 0%N 0%N (map (fun nd => static_comp (fst nd) (snd nd) []) comps))) expected.
+
+(* a view called on a store given by its addresses: Some (addresses afterwards) -- a defaulted entity that is
+   absent is created (setdefault) -- or None = ValueError *)
+Definition viewcall_case (c : string * list string * list (string * string) * list string * option (list string)) : bool :=
+  let '(name, defaults, binds, addrs, expected) := c in
+  oeqb (leqb String.eqb)
+       (option_map (fun r => map fst (fst r))
+                   (view_call XEnt XPay unit (static_comp name defaults binds) (fun _ => tt) (map (fun a => (a, 0%N)) addrs)))
+       expected.
 
 (* ---- (e) whole plays, trace-driven *)
 (* a reducer = table  (payload id, entity ids of the input state in field order) -> (output fields, raw events) *)
